@@ -1242,6 +1242,85 @@ func genAny(r *vlib.Rand) Scn {
 	return genSmerge(r, r.Pick(1, 2, 4, 4, 1, 1))
 }
 
+// enumerate runs every script of bounded length; false when the time ran out first.
+func enumerate(t *testing.T, ms *models, res *vlib.Result, until time.Time) bool {
+	type space struct {
+		fam   string
+		n     int
+		depth int
+	}
+	spaces := []space{{"merge", 0, 2}, {"merge", 1, 6}, {"merge", 2, 5}, {"merge", 3, 4}, {"merge", 4, 3}, {"merge", 5, 2},
+		{"repl", 0, 3}, {"repl", 1, 5}, {"repl", 2, 5}, {"repl", 3, 4},
+		{"smerge", 0, 3}, {"smerge", 1, 5}, {"smerge", 2, 4}, {"smerge", 3, 3}}
+	for _, sp := range spaces {
+		var alpha []Step
+		var tail []Step
+		switch sp.fam {
+		case "merge":
+			for i := 0; i < sp.n; i++ {
+				alpha = append(alpha, Step{Op: "send", I: i}, Step{Op: "close", I: i})
+				tail = append(tail, Step{Op: "close", I: i})
+			}
+			alpha = append(alpha, Step{Op: "take"})
+			tail = append(tail, Step{Op: "drain"})
+		case "repl":
+			alpha = append(alpha, Step{Op: "send"}, Step{Op: "close"})
+			for j := 0; j < sp.n; j++ {
+				alpha = append(alpha, Step{Op: "take", I: j})
+			}
+			tail = append(tail, Step{Op: "close"}, Step{Op: "drain"})
+		case "smerge":
+			for i := 0; i < sp.n; i++ {
+				alpha = append(alpha, Step{Op: "item", I: i}, Step{Op: "end", I: i}, Step{Op: "err", I: i, E: i + 1})
+			}
+			alpha = append(alpha, Step{Op: "cnext", Live: true}, Step{Op: "cnext", Live: false}, Step{Op: "close"})
+			tail = append(tail, Step{Op: "cnext", Live: true}, Step{Op: "close"})
+		}
+		idx := make([]int, sp.depth)
+		for length := 0; length <= sp.depth; length++ {
+			for i := range idx {
+				idx[i] = 0
+			}
+			for {
+				if time.Now().After(until) {
+					return false
+				}
+				sc := Scn{Fam: sp.fam, N: sp.n, Buf: 8}
+				seq := make([]int, sp.n+1)
+				for p := 0; p < length; p++ {
+					st := alpha[idx[p]]
+					if st.Op == "send" || st.Op == "item" {
+						if sp.fam == "repl" {
+							st.V = seq[0]
+							seq[0]++
+						} else {
+							st.V = st.I*1000 + seq[st.I]
+							seq[st.I]++
+						}
+					}
+					sc.Steps = append(sc.Steps, st)
+				}
+				sc.Steps = append(sc.Steps, tail...)
+				res.Count("exhaustive." + sp.fam)
+				runScn(t, ms, res, sc, true)
+				// next index vector
+				p := length - 1
+				for ; p >= 0; p-- {
+					idx[p]++
+					if idx[p] < len(alpha) {
+						break
+					}
+					idx[p] = 0
+				}
+				if p < 0 {
+					break
+				}
+			}
+		}
+	}
+	return true
+}
+
 // ---------------------------------------------------------------------------------------------
 
 func loadScn(path string) (Scn, error) {
@@ -1311,7 +1390,16 @@ func TestVerif(t *testing.T) {
 
 	r := vlib.NewRand(env.Seed)
 	deadline := env.Deadline()
-	maxCases := 4000
+	if env.Thorough() {
+		// exhaustive small scope: every script up to a length over the full action alphabet, each
+		// followed by the standard ending (close everything, drain / read to the end, Close)
+		complete := enumerate(t, ms, res, time.Now().Add(time.Duration(env.BudgetMs/3)*time.Millisecond))
+		res.Exhaustive = complete
+		if complete {
+			res.Count("exhaustive-small-scope-complete")
+		}
+	}
+	maxCases := 14000
 	if env.Thorough() || env.Deep {
 		maxCases = 60000
 	}
